@@ -137,7 +137,7 @@ WellFormed(s) == /\ PhasesOf(s.kind) # {}
 ItemOK(it) == /\ Len(it.nu) = NC /\ it.r \in Chems /\ it.nu[it.r] = <<-1, 1>>
               /\ (Tagged(it) => Len(it.tag) = NC /\ \A i \in Chems : IF RIsZero(it.nu[i]) THEN it.tag[i] = "-" ELSE it.tag[i] \in Phs)
               /\ ~RLt(it.X, Zero) /\ ~RLt(One, it.X)
-SetOK(set) == /\ set.kind \in {"single", "parallel", "series"} /\ set.basis \in {"mol", "wt"} /\ set.items # <<>>
+SetOK(set) == /\ set.kind \in {"single", "parallel", "series", "system"}      \* a reaction system applies its members in series /\ set.basis \in {"mol", "wt"} /\ set.items # <<>>
               /\ (set.kind = "single" => Len(set.items) = 1)
               /\ \A j \in DOMAIN set.items : ItemOK(set.items[j])
               /\ (AllTagged(set) \/ NoneTagged(set))
@@ -218,7 +218,7 @@ Act(op, a) == /\ (Pre(S, op, a) = TRUE) /\ SetS(Post(S, op, a))
                              [] op \in {"set_feed", "set_Hf"} -> Hnet3(Post(S, op, a))
                              [] OTHER -> added)
               /\ path' = Append(path, [op |-> op, a |-> a])
-Load == "load" \in Ops /\ rs.kind = None /\ \E k \in {"single", "parallel", "series"}, b \in {"mol", "wt"}, tg \in Tags, i1 \in DOMAIN Lib, i2 \in DOMAIN Lib,
+Load == "load" \in Ops /\ rs.kind = None /\ \E k \in {"single", "parallel", "series", "system"}, b \in {"mol", "wt"}, tg \in Tags, i1 \in DOMAIN Lib, i2 \in DOMAIN Lib,
                              r1 \in Chems, r2 \in Chems, x1 \in XVals, x2 \in XVals :
           /\ RLt(Lib[i1][r1], Zero) /\ RLt(Lib[i2][r2], Zero)
           /\ (k = "single" => i2 = i1 /\ r2 = r1 /\ x2 = x1)
